@@ -24,6 +24,10 @@ func TestMain(m *testing.M) { kit.Main(m, "C08") }
 
 // Phase: writers run (each bound to a node), then a crash event, then restarts.
 type Phase struct {
+	// DownWriters > 0: while the killed nodes are down (only when a majority is still up), that many
+	// further writers run against the surviving nodes before the restart, so that the restarted node
+	// has to catch up - through the log or, with a snapshot threshold, through an installed snapshot.
+	DownWriters int    `json:"down_writers,omitempty"`
 	Writers    []int  `json:"writers"`     // node of each writer
 	PerWriter  int    `json:"per_writer"`  // writes per writer
 	Kill       []int  `json:"kill"`        // nodes killed (-9) at the crash event
@@ -94,18 +98,22 @@ func genCase(t *rapid.T) Case {
 	c := Case{}
 	// snapshot settings are generated only when the snapshot findings are not (or no longer) listed
 	if !kit.Known("C08-F1") && !kit.Known("C08-F2") {
-		c.SnapCount = rapid.SampledFrom([]int{0, 0, 5, 20}).Draw(t, "snapcount")
-		// the shipped constants keep catch-up <= threshold (both 10000); a larger catch-up makes the
-		// compaction index fall behind the previous snapshot, which the code does not expect
-		c.CatchUp = 2
-		if c.SnapCount == 20 {
-			c.CatchUp = rapid.SampledFrom([]int{2, 10, 20}).Draw(t, "catchup")
+		c.SnapCount = rapid.SampledFrom([]int{0, 5, 5, 20, 20}).Draw(t, "snapcount")
+		// the shipped constants are equal (threshold 10000, catch-up 10000): that is the main
+		// configuration; a smaller catch-up is explored too. A larger one makes the compaction index fall
+		// behind the previous snapshot, which the code does not expect (not reachable as shipped).
+		c.CatchUp = c.SnapCount
+		if c.SnapCount > 0 && rapid.IntRange(0, 2).Draw(t, "smallcatchup") == 0 {
+			c.CatchUp = 2
 		}
 	}
 	np := rapid.IntRange(1, 3).Draw(t, "phases")
 	for i := 0; i < np; i++ {
 		p := Phase{PerWriter: rapid.SampledFrom([]int{5, 15, 40}).Draw(t, "per"), Kinds: gen.Pick(t, "kinds", "s", "all", "all")}
 		nw := rapid.IntRange(1, 4).Draw(t, "writers")
+		if c.SnapCount > 0 {
+			nw = rapid.IntRange(4, 12).Draw(t, "manywriters") // commit batches with several commands around snapshot points
+		}
 		for w := 0; w < nw; w++ {
 			p.Writers = append(p.Writers, 1+rapid.IntRange(0, 2).Draw(t, "wnode"))
 		}
@@ -128,6 +136,9 @@ func genCase(t *rapid.T) Case {
 			p.KillAtMs = rapid.SampledFrom([]int{1, 5, 20, 60}).Draw(t, "killat")
 		}
 		p.Restart = rapid.Permutation(p.Kill).Draw(t, "restart")
+		if len(p.Kill) == 1 && rapid.Bool().Draw(t, "downwrites") {
+			p.DownWriters = rapid.IntRange(1, 4).Draw(t, "downwriters")
+		}
 		c.Phases = append(c.Phases, p)
 	}
 	return c
@@ -147,6 +158,9 @@ type ledger struct {
 	list    map[int][]write             // writer -> RPUSH lst <writer>:<seq>, in order
 	hash    map[string]write            // field -> HSET h field value
 	set     map[string]write            // member -> SADD s member
+	vols         map[string]write     // key -> SET key v EX 6
+	persisted    map[string]bool      // volatile keys for which a PERSIST has been issued
+	persistAcked map[string]time.Time // volatile keys whose PERSIST was acknowledged with 1
 }
 
 func execCase(c Case) kit.Outcome {
@@ -175,15 +189,15 @@ func execCase(c Case) kit.Outcome {
 		// the armed nodes may die while becoming ready again; wait only for the cluster as a whole
 		time.Sleep(300 * time.Millisecond)
 	}
-	lg := &ledger{strs: map[string]write{}, list: map[int][]write{}, hash: map[string]write{}, set: map[string]write{}}
+	lg := &ledger{strs: map[string]write{}, list: map[int][]write{}, hash: map[string]write{}, set: map[string]write{},
+		vols: map[string]write{}, persisted: map[string]bool{}, persistAcked: map[string]time.Time{}}
 	seq := 0
 	for pi, p := range c.Phases {
 		var wg sync.WaitGroup
 		stop := make(chan struct{})
-		for wi, node := range p.Writers {
+		startWriter := func(wid, node, n int, kinds string) {
 			wg.Add(1)
-			wid := pi*10 + wi
-			go func(wid, node int) {
+			go func() {
 				defer wg.Done()
 				var cn *srv.Conn
 				defer func() {
@@ -191,15 +205,18 @@ func execCase(c Case) kit.Outcome {
 						cn.Close()
 					}
 				}()
-				for i := 0; i < p.PerWriter; i++ {
+				for i := 0; i < n; i++ {
 					select {
 					case <-stop:
 						return
 					default:
 					}
 					kind := "s"
-					if p.Kinds == "all" {
-						kind = []string{"s", "i", "l", "h", "t"}[i%5]
+					if kinds == "all" {
+						kind = []string{"s", "i", "l", "h", "t", "v"}[i%6]
+					}
+					if kinds == "persist" {
+						kind = "p"
 					}
 					id := fmt.Sprintf("w%d-%d", wid, i)
 					var cmd kit.Cmd
@@ -212,8 +229,27 @@ func execCase(c Case) kit.Outcome {
 						cmd = kit.MkCmd("RPUSH", "lst", id)
 					case "h":
 						cmd = kit.MkCmd("HSET", "h", "f:"+id, "v:"+id)
-					default:
+					case "t":
 						cmd = kit.MkCmd("SADD", "s", "m:"+id)
+					case "v": // a volatile key with a far deadline ...
+						cmd = kit.MkCmd("SET", "vol:"+id, "v:"+id, "EX", "6")
+					default: // ... made persistent again later (possibly while a node is down)
+						lg.mu.Lock()
+						var pick string
+						for k, w := range lg.vols {
+							if w.acked && !lg.persisted[k] {
+								pick = k
+								lg.persisted[k] = true
+								break
+							}
+						}
+						lg.mu.Unlock()
+						if pick == "" {
+							cmd = kit.MkCmd("SET", "k:"+id, "v:"+id)
+							kind = "s"
+						} else {
+							cmd = kit.MkCmd("PERSIST", pick)
+						}
 					}
 					if cn == nil {
 						var err error
@@ -241,15 +277,25 @@ func execCase(c Case) kit.Outcome {
 						lg.list[wid] = append(lg.list[wid], w)
 					case "h":
 						lg.hash["f:"+id] = w
-					default:
+					case "t":
 						lg.set["m:"+id] = w
+					case "v":
+						lg.vols["vol:"+id] = w
+					default:
+						// PERSIST acknowledged with :1 -> the key has no deadline any more, on every replica
+						if acked && v.Kind == respx.Integer && v.Int == 1 {
+							lg.persistAcked[string(cmd[1])] = time.Now()
+						}
 					}
 					lg.mu.Unlock()
 					if err != nil {
 						return
 					}
 				}
-			}(wid, node)
+			}()
+		}
+		for wi, node := range p.Writers {
+			startWriter(pi*100+wi, node, p.PerWriter, p.Kinds)
 		}
 		kill := func() {
 			for _, n := range p.Kill {
@@ -284,6 +330,25 @@ func execCase(c Case) kit.Outcome {
 		}
 		close(stop)
 		seq++
+		if p.DownWriters > 0 && len(p.Kill) == 1 {
+			// the survivors keep taking writes (incl. PERSIST of volatile keys) while one node is down
+			stop = make(chan struct{})
+			up := []int{}
+			for n := 1; n <= 3; n++ {
+				if n != p.Kill[0] {
+					up = append(up, n)
+				}
+			}
+			for w := 0; w < p.DownWriters; w++ {
+				kinds := "s"
+				if w == 0 {
+					kinds = "persist"
+				}
+				startWriter(pi*100+50+w, up[w%2], 30, kinds)
+			}
+			wg.Wait()
+			close(stop)
+		}
 		var rest []int
 		if c.CrashPoint != "" && c.KillRest && pi == 0 {
 			for n := 1; n <= 3; n++ {
@@ -342,6 +407,24 @@ func execCase(c Case) kit.Outcome {
 			return o
 		}
 		o.NonTrivial = true
+	}
+	// keys that were made persistent must outlive their old deadline on every node
+	lg.mu.Lock()
+	var latest time.Time
+	for _, at := range lg.persistAcked {
+		if at.After(latest) {
+			latest = at
+		}
+	}
+	lg.mu.Unlock()
+	if !latest.IsZero() {
+		if d := time.Until(latest.Add(7200 * time.Millisecond)); d > 0 {
+			time.Sleep(d)
+		}
+		o.Labels = append(o.Labels, "persisted-volatile-keys-checked")
+		if msg := verify(cl, lg); msg != "" && o.Fail == "" {
+			o.Fail = "after the old deadlines of keys made persistent: " + msg
+		}
 	}
 	for n := 1; n <= 3; n++ {
 		if !cl.Alive(n) {
@@ -470,6 +553,22 @@ func verify(cl *srv.Cluster, lg *ledger) string {
 				return fmt.Sprintf("hash field %q reads %s through node %d, written %s", f, v.String(), n, w.cmd.String())
 			}
 		}
+		for k, at := range lg.persistAcked {
+			// PERSIST was acknowledged: the key has no deadline on any replica; check it once the old
+			// deadline (6 s after the SET) has certainly passed
+			if time.Since(at) < 7*time.Second {
+				continue
+			}
+			v, bad := get("GET", k)
+			if bad != "" {
+				cn.Close()
+				return bad
+			}
+			if v.Null {
+				cn.Close()
+				return fmt.Sprintf("key %q was made persistent (PERSIST acknowledged) but has expired when read through node %d", k, n)
+			}
+		}
 		for m, w := range lg.set {
 			v, bad := get("SISMEMBER", "s", m)
 			if bad != "" {
@@ -487,7 +586,7 @@ func verify(cl *srv.Cluster, lg *ledger) string {
 }
 
 func TestCrashRestart(t *testing.T) {
-	kit.Check(t, kit.Spec[Case]{Sub: "crash", Quick: 1, Thorough: 10, Gen: genCase, Exec: execCase, NoShrink: !kit.Thorough()})
+	kit.Check(t, kit.Spec[Case]{Sub: "crash", Quick: 3, Thorough: 12, Gen: genCase, Exec: execCase, NoShrink: !kit.Thorough()})
 }
 
 // genMajorityCase: the scenario behind "the WAL is written before entries are published or
@@ -507,6 +606,29 @@ func genMajorityCase(t *rapid.T) Case {
 	}
 	c.Phases = []Phase{p}
 	return c
+}
+
+// genSnapshotLoad: a low snapshot threshold under many concurrent writers (commit batches carry
+// several commands, snapshots are taken every few entries), then every node is killed once the load is
+// over and restarted: each node comes back from its newest snapshot plus the log behind it, so a
+// snapshot that does not contain exactly the entries up to its index loses or duplicates writes.
+func genSnapshotLoad(t *rapid.T) Case {
+	c := Case{SnapCount: rapid.SampledFrom([]int{3, 5, 8}).Draw(t, "snapcount")}
+	c.CatchUp = c.SnapCount
+	np := rapid.IntRange(1, 2).Draw(t, "phases")
+	for i := 0; i < np; i++ {
+		p := Phase{PerWriter: rapid.SampledFrom([]int{20, 40}).Draw(t, "per"), Kinds: "all", Kill: []int{1, 2, 3}, Restart: rapid.Permutation([]int{1, 2, 3}).Draw(t, "restart")}
+		nw := rapid.IntRange(8, 16).Draw(t, "writers")
+		for w := 0; w < nw; w++ {
+			p.Writers = append(p.Writers, 1+rapid.IntRange(0, 2).Draw(t, "wnode"))
+		}
+		c.Phases = append(c.Phases, p)
+	}
+	return c
+}
+
+func TestSnapshotUnderLoad(t *testing.T) {
+	kit.Check(t, kit.Spec[Case]{Sub: "crash", Quick: 1, Thorough: 12, Gen: genSnapshotLoad, Exec: execCase, NoShrink: !kit.Thorough()})
 }
 
 func TestMajorityLosesTail(t *testing.T) {
